@@ -133,7 +133,8 @@ SCENARIOS = {
         "nontrivial": "any",
     },
     "C13": {
-        "theorems": ["C13_unique", "C13_unique_log", "C13_full", "C13_full_step", "C13_counter", "C13_sequential", "C13_fresh_supply",
+        "modules": ["C13", "C13Build"],
+        "theorems": ["C13_build_any_supply", "C13_build_every_schedule", "C13_build_every_schedule_max", "C13_ofSeq_fresh", "C13_checker_any_supply", "C13_unique", "C13_unique_log", "C13_full", "C13_full_step", "C13_counter", "C13_sequential", "C13_fresh_supply",
                      "C13_fresh_gen"],
         "quick": [{"name": "ids", "args": ["ids", "--seed", "{seed}"]}, hist("c13", 60)],
         "thorough": [{"name": "ids", "args": ["ids", "--seed", "{seed}", "--tier", "thorough"], "timeout": 3000},
